@@ -190,7 +190,7 @@ type plan struct {
 	Batch    int
 	NBatches int
 	Scratch  string
-	Surface  string // a|b|c|d|f (f = fixed regression list)
+	Surface  string // a|b|c|d|e|f (f = fixed regression list)
 	From, To int    // case index range of the surface
 }
 
@@ -466,7 +466,7 @@ func runBatch(c *run.Ctx) {
 		p.From, p.To = c.Share(len(fixedCases()))
 		supervise(c, p)
 	}
-	for _, s := range []string{"a", "b", "c", "d"} {
+	for _, s := range []string{"a", "e", "b", "c", "d"} {
 		if !want(s) {
 			continue
 		}
